@@ -67,12 +67,15 @@ class Result:
 
 
 class FDE:
-    def __init__(self, repo, inline=(), stub=None, max_depth=6):
-        """inline: names of methods / functions that are evaluated by inlining their source;
-        every other call on an Obj is recorded as an effect ('call', name, recv, args, kwargs) and returns
-        stub(name, recv, args, kwargs) (default: the receiver)."""
+    DEFAULT_STUBS = frozenset({'_maybe_promote', '_propagate_implicit_values', '_propagate_priority'})
+
+    def __init__(self, repo, inline=(), stubs=None, stub=None, max_depth=8):
+        """Every call that resolves to a repo function is evaluated by inlining its source, except the names in
+        `stubs` (default: the structural helpers _maybe_promote / _propagate_*): those are recorded as an
+        effect ('call', name, recv, args, kwargs) and return stub(name, recv, args, kwargs) (default: the receiver).
+        A call that can be neither inlined nor is stubbed raises Unsupported (no verdict) - never a silent skip."""
         self.repo = repo
-        self.inline = set(inline)
+        self.stubs = set(self.DEFAULT_STUBS if stubs is None else stubs)
         self.stub = stub
         self.max_depth = max_depth
         self.effects = []
@@ -326,6 +329,18 @@ class FDE:
                 except (KeyError, IndexError):
                     raise Raised('KeyError')
             raise Unsupported('subscript of %r' % (b,))
+        if isinstance(e, (ast.GeneratorExp, ast.ListComp)) and len(e.generators) == 1 and not e.generators[0].is_async:
+            gen = e.generators[0]
+            it = self._ev(gen.iter, env, fi)
+            if not isinstance(it, (list, tuple)):
+                raise Unsupported('comprehension over non-concrete iterable: ' + unparse(gen.iter))
+            out = []
+            for x in it:
+                env2 = dict(env)
+                self._assign(gen.target, x, env2, fi)
+                if all(self._truth(self._ev(c, env2, fi)) for c in gen.ifs):
+                    out.append(self._ev(e.elt, env2, fi))
+            return out
         if isinstance(e, ast.BinOp) and isinstance(e.op, ast.Add):
             a, b = self._ev(e.left, env, fi), self._ev(e.right, env, fi)
             if isinstance(a, Opaque) or isinstance(b, Opaque):
@@ -401,21 +416,26 @@ class FDE:
             if n in ('bool', 'len', 'any', 'all', 'list', 'tuple'):
                 if n == 'bool':
                     return self._truth(args[0])
+                if n in ('any', 'all') and isinstance(args[0], (list, tuple)):
+                    vals = [self._truth(a) for a in args[0]]
+                    return any(vals) if n == 'any' else all(vals)
+                if n in ('list', 'tuple') and isinstance(args[0], (list, tuple)):
+                    return list(args[0]) if n == 'list' else tuple(args[0])
                 if n == 'len' and isinstance(args[0], (dict, list, tuple, str)):
                     return len(args[0])
                 raise Unsupported('builtin ' + n)
             if n in env and isinstance(env[n], tuple) and env[n] and env[n][0] == 'closure':
                 return self._invoke(env[n][1], args, kwargs)
             targets = self.repo.resolve_call(e, fi) if fi is not None else []
-            if targets and (n in self.inline or targets[0].qualname in self.inline):
+            if targets and n not in self.stubs:
                 return self._invoke(targets[0], args, kwargs)
-            raise Unsupported('call of %s (not in the inline set)' % n)
+            raise Unsupported('call of %s (unresolved)' % n)
         if isinstance(f, ast.Attribute):
             target = self._ev(f, env, fi)
             if isinstance(target, Bound):
                 name = target.name
                 q = target.fi.qualname
-                if name in self.inline or q in self.inline:
+                if name not in self.stubs and q not in self.stubs:
                     return self._invoke(target.fi, [target.recv] + args, kwargs)
                 self.effects.append(('call', name, target.recv, tuple(args), tuple(sorted(kwargs.items(), key=lambda kv: kv[0]))))
                 if self.stub is not None:
@@ -423,7 +443,7 @@ class FDE:
                 return target.recv
             if isinstance(target, tuple) and target and target[0] == 'unbound':
                 t = target[1]
-                if t.name in self.inline or t.qualname in self.inline:
+                if t.name not in self.stubs and t.qualname not in self.stubs:
                     return self._invoke(t, args, kwargs)
                 self.effects.append(('call', t.name, args[0] if args else None, tuple(args[1:]), tuple(sorted(kwargs.items()))))
                 if self.stub is not None:
